@@ -22,6 +22,8 @@ class TField(object):
         self.order = 0
         self.page = None
         self.group = None           # exclusive-group key, if any
+        self.rect = None            # (x0, y0, x1, y1) of the widget (AcroForm templates)
+        self.page_ref = None        # object number of the page the widget sits on (AcroForm templates)
         self.short = name
 
     def __repr__(self):
@@ -294,6 +296,12 @@ def _parse_acro(path, data):
         m = re.search(rb'/MaxLen\s+(\d+)', d)
         if m:
             tf.max_len = int(m.group(1))
+        mr = re.search(rb'/Rect\s*\[\s*([-\d.]+)\s+([-\d.]+)\s+([-\d.]+)\s+([-\d.]+)\s*\]', d)
+        if mr:
+            tf.rect = tuple(float(x) for x in mr.groups())
+        mp = re.search(rb'/P\s+(\d+)\s+\d+\s+R', d)
+        if mp:
+            tf.page_ref = int(mp.group(1))
         if kind == 'button':
             ff = re.search(rb'/Ff\s+(\d+)', d)
             if ff and int(ff.group(1)) & (1 << 16):
